@@ -905,12 +905,22 @@ func (p *parser) function() (Node, error) {
 	return nil, &UnknownFunctionError{name}
 }
 
+// argument parses a function argument at a position that takes a value. An
+// expression reference there has the wrong type.
+func (p *parser) argument(name string) (Node, error) {
+	if p.curr.Type == lexer.ExpressionToken {
+		return nil, &InvalidFunctionArgumentError{name, "value"}
+	}
+
+	return p.expression(1)
+}
+
 func (p *parser) function1Arg(name string) (Node, error) {
 	if p.curr.Type == lexer.CloseParenToken {
 		return nil, &InvalidFunctionCallError{name}
 	}
 
-	arg, err := p.expression(1)
+	arg, err := p.argument(name)
 	if err != nil {
 		return nil, err
 	}
@@ -935,7 +945,7 @@ func (p *parser) function1To2Arg(name string) (Node, Node, error) {
 		return nil, nil, &InvalidFunctionCallError{name}
 	}
 
-	arg1, err := p.expression(1)
+	arg1, err := p.argument(name)
 	if err != nil {
 		return nil, nil, err
 	}
@@ -956,7 +966,7 @@ func (p *parser) function1To2Arg(name string) (Node, Node, error) {
 		return nil, nil, err
 	}
 
-	arg2, err := p.expression(1)
+	arg2, err := p.argument(name)
 	if err != nil {
 		return nil, nil, err
 	}
@@ -981,7 +991,7 @@ func (p *parser) function2Arg(name string) (Node, Node, error) {
 		return nil, nil, &InvalidFunctionCallError{name}
 	}
 
-	arg1, err := p.expression(1)
+	arg1, err := p.argument(name)
 	if err != nil {
 		return nil, nil, err
 	}
@@ -998,7 +1008,7 @@ func (p *parser) function2Arg(name string) (Node, Node, error) {
 		return nil, nil, err
 	}
 
-	arg2, err := p.expression(1)
+	arg2, err := p.argument(name)
 	if err != nil {
 		return nil, nil, err
 	}
@@ -1023,7 +1033,7 @@ func (p *parser) function2ExpArg(name string) (Node, Node, error) {
 		return nil, nil, &InvalidFunctionCallError{name}
 	}
 
-	arg1, err := p.expression(1)
+	arg1, err := p.argument(name)
 	if err != nil {
 		return nil, nil, err
 	}
@@ -1094,7 +1104,7 @@ func (p *parser) function2MapArg(name string) (Node, Node, error) {
 		return nil, nil, err
 	}
 
-	arg2, err := p.expression(1)
+	arg2, err := p.argument(name)
 	if err != nil {
 		return nil, nil, err
 	}
@@ -1119,7 +1129,7 @@ func (p *parser) function2To3Arg(name string) (Node, Node, Node, error) {
 		return nil, nil, nil, &InvalidFunctionCallError{name}
 	}
 
-	arg1, err := p.expression(1)
+	arg1, err := p.argument(name)
 	if err != nil {
 		return nil, nil, nil, err
 	}
@@ -1136,7 +1146,7 @@ func (p *parser) function2To3Arg(name string) (Node, Node, Node, error) {
 		return nil, nil, nil, err
 	}
 
-	arg2, err := p.expression(1)
+	arg2, err := p.argument(name)
 	if err != nil {
 		return nil, nil, nil, err
 	}
@@ -1157,7 +1167,7 @@ func (p *parser) function2To3Arg(name string) (Node, Node, Node, error) {
 		return nil, nil, nil, err
 	}
 
-	arg3, err := p.expression(1)
+	arg3, err := p.argument(name)
 	if err != nil {
 		return nil, nil, nil, err
 	}
@@ -1182,7 +1192,7 @@ func (p *parser) function2To4Arg(name string) (Node, Node, Node, Node, error) {
 		return nil, nil, nil, nil, &InvalidFunctionCallError{name}
 	}
 
-	arg1, err := p.expression(1)
+	arg1, err := p.argument(name)
 	if err != nil {
 		return nil, nil, nil, nil, err
 	}
@@ -1199,7 +1209,7 @@ func (p *parser) function2To4Arg(name string) (Node, Node, Node, Node, error) {
 		return nil, nil, nil, nil, err
 	}
 
-	arg2, err := p.expression(1)
+	arg2, err := p.argument(name)
 	if err != nil {
 		return nil, nil, nil, nil, err
 	}
@@ -1220,7 +1230,7 @@ func (p *parser) function2To4Arg(name string) (Node, Node, Node, Node, error) {
 		return nil, nil, nil, nil, err
 	}
 
-	arg3, err := p.expression(1)
+	arg3, err := p.argument(name)
 	if err != nil {
 		return nil, nil, nil, nil, err
 	}
@@ -1241,7 +1251,7 @@ func (p *parser) function2To4Arg(name string) (Node, Node, Node, Node, error) {
 		return nil, nil, nil, nil, err
 	}
 
-	arg4, err := p.expression(1)
+	arg4, err := p.argument(name)
 	if err != nil {
 		return nil, nil, nil, nil, err
 	}
@@ -1266,7 +1276,7 @@ func (p *parser) function3To4Arg(name string) (Node, Node, Node, Node, error) {
 		return nil, nil, nil, nil, &InvalidFunctionCallError{name}
 	}
 
-	arg1, err := p.expression(1)
+	arg1, err := p.argument(name)
 	if err != nil {
 		return nil, nil, nil, nil, err
 	}
@@ -1283,7 +1293,7 @@ func (p *parser) function3To4Arg(name string) (Node, Node, Node, Node, error) {
 		return nil, nil, nil, nil, err
 	}
 
-	arg2, err := p.expression(1)
+	arg2, err := p.argument(name)
 	if err != nil {
 		return nil, nil, nil, nil, err
 	}
@@ -1300,7 +1310,7 @@ func (p *parser) function3To4Arg(name string) (Node, Node, Node, Node, error) {
 		return nil, nil, nil, nil, err
 	}
 
-	arg3, err := p.expression(1)
+	arg3, err := p.argument(name)
 	if err != nil {
 		return nil, nil, nil, nil, err
 	}
@@ -1321,7 +1331,7 @@ func (p *parser) function3To4Arg(name string) (Node, Node, Node, Node, error) {
 		return nil, nil, nil, nil, err
 	}
 
-	arg4, err := p.expression(1)
+	arg4, err := p.argument(name)
 	if err != nil {
 		return nil, nil, nil, nil, err
 	}
@@ -1348,7 +1358,7 @@ func (p *parser) functionVarArg(name string) ([]Node, error) {
 
 	var nodes []Node
 	for {
-		node, err := p.expression(1)
+		node, err := p.argument(name)
 		if err != nil {
 			return nil, err
 		}
